@@ -6134,6 +6134,10 @@ class State:
         bets = self.bets.copy()
         amount, pot_index, board_index, hand_type_index = self._sub_pots.pop(0)
         pot = self._pots[pot_index]
+
+        if all(sub_pot[1] != pot_index for sub_pot in self._sub_pots):
+            amount = pot.unraked_amount
+
         pot.unraked_amount -= amount
 
         assert pot.unraked_amount >= 0
